@@ -14,7 +14,7 @@ BYFILE = [('src/str.c', 'C01'), ('src/ustr.c', 'C01'), ('src/mbuff.c', 'C07'), (
           ('src/objpair.c', 'C05'), ('src/obj.c', 'C05'), ('include/libast/obj.h', 'C05'), ('src/tok.c', 'C12'), ('src/strings.c', 'C12/C13/C17'),
           ('src/array.c', 'C02/C03/C04'), ('src/linked_list.c', 'C02/C03/C04'), ('src/dlinked_list.c', 'C02/C03/C04')]
 # src/conf.c serves three properties: each fix is attributed to the property whose check produced its witness
-CONF = {'C10': ['84f9d83', 'c01f998', 'ed23a4e', 'cf9567c', '265d316', '7e1ce25', 'f638c12', '3521386', '78d0ba3'],
+CONF = {'C10': ['84f9d83', 'c01f998', 'ed23a4e', 'cf9567c', '265d316', '7e1ce25', 'f638c12', '3521386', '78d0ba3', '88ec215'],
         'C09': ['75645ea', '36fdf75', 'd1525b1', '23c5622'],
         'C11': ['da9c253', 'de9ea78', '27f5448', '974c02a', '0de1e2a', '2c9ce5a', '53584c7', '21726e5', 'de4e2b8', 'dbffd58', '6169b3f', 'ad27e38', '96e43a0', 'c5caeb3',
                 '35c1340', 'b2014b0', 'f679b94', '4cd2e78', 'a2618ef', '949f715', '16fcea6']}
